@@ -25,3 +25,9 @@ package lib
 //@   pure
 //@ lib func unicode.IsLetter(r rune) (b bool)
 //@   pure
+
+// unicode/utf8 (trusted: transcribed from the package documentation / source)
+//@ spec func RuneLenSpec(r rune) int = ite(r < 0, -1, ite(r < 128, 1, ite(r < 2048, 2, ite(55296 <= r && r <= 57343, -1, ite(r <= 65535, 3, ite(r <= 1114111, 4, -1))))))
+//@ lib func utf8.RuneLen(r rune) (n int)
+//@   pure
+//@   ensures n == RuneLenSpec(r)
